@@ -42,12 +42,15 @@ fn corpus_build() -> Vec<(&'static str, P)> {
 
 impl C17 {
     fn judge(&self, ctx: &mut Ctx, class: &str, p: &P) {
+        self.judge_on(ctx, class, p, to_strict(p))
+    }
+
+    fn judge_on(&self, ctx: &mut Ctx, class: &str, p: &P, lf: SOh<u32, u64>) {
         let input = || json!({"f": show(p)});
         let n = p.w.len();
         if n >= 1 {
             ctx.nontrivial(p);
         }
-        let lf = to_strict(p);
         let nsucc = node_succs(p);
         let want_acyclic = acyclic(&nsucc);
         let want_mono = monogamous(p);
@@ -125,6 +128,7 @@ impl Monitor for C17 {
     fn floors(&self) -> Vec<(&'static str, u64)> {
         vec![
             ("outcome:acyclic_true", 200),
+            ("class:diagram_built_by_library_operations", 300),
             ("outcome:acyclic_false", 200),
             ("outcome:monogamous_true", 100),
             ("outcome:monogamous_false", 200),
@@ -191,5 +195,17 @@ impl Monitor for C17 {
             }
         };
         self.judge(ctx, "random", &p);
+        if r.chance(1, 6) {
+            // the same questions asked of a diagram produced by a pipeline of library operations (whose operands were
+            // asked the same questions before)
+            let pa = OhParams { max_nodes: 5, max_edges: 4, max_arity: 3, max_iface: 3, node_labels: 2, edge_labels: 3 };
+            let (f, g) = gen::composable_pair(r, &pa);
+            let h = gen::oh(r, &pa);
+            if let Some((x, p, how)) = library_built(r, &f, &g, &h) {
+                ctx.class("diagram_built_by_library_operations");
+                ctx.count(&format!("pipeline:{}", how));
+                self.judge_on(ctx, "library_built", &p, x);
+            }
+        }
     }
 }
